@@ -293,7 +293,7 @@ def run(tier: str, rng: random.Random, proof_ok: bool) -> dict:
                 report(r, {"v": to_json(vt), "ops": [[m, to_json(x)] for m, x in ops]})
     G.WF_ONLY[0] = True
     try:
-        for _ in range(150 if tier == "quick" else 3000):
+        for _ in range(150 if tier == "quick" else 1500):
             lazy = [G.gen_validator(rng, 1)]
             vt = G.gen_validator(rng, rng.choice([0, 1, 2, 2]), lazy_n=1)
             if "CacheV" in coq(vt) or "CacheV" in coq(lazy):
@@ -332,12 +332,12 @@ def run(tier: str, rng: random.Random, proof_ok: bool) -> dict:
     for vt, lazy_, alpha in [(a_, [], c_) for a_, c_ in inter] + inter_lazy:
         for k in (2, 3):
             for xts in itertools.product(alpha, repeat=k):
-                if k == 3 and rng.random() < (0.7 if tier == "quick" else 0.0):
+                if k == 3 and rng.random() < (0.7 if tier == "quick" else 0.4):
                     continue
                 n_inter += 1
                 amb0 = ambient()
                 try:
-                    r, c = check_interleavings(vt, lazy_, list(xts), 600 if tier == "quick" else 30000)
+                    r, c = check_interleavings(vt, lazy_, list(xts), 600 if tier == "quick" else 6000)
                 except HarnessError:
                     continue
                 amb1 = ambient()
@@ -354,6 +354,11 @@ def run(tier: str, rng: random.Random, proof_ok: bool) -> dict:
     report(several_event_loops("C13"), {"event_loops": True})
     from .C08 import repeated_calls
     report(repeated_calls("C13"), {"repeated_calls": True})
+    # what a cache wrapper answers for an input does not depend on calls that produced no result (raised, cancelled)
+    from .C20 import cache_variants
+    cv_ = cache_variants()
+    if cv_:
+        report({"signature": "C13:cache-history", "what": cv_["what"]}, {"cache_variants": True})
     # (c) threads (sampled)
     for vt, alpha in fixed[:6]:
         n_thr += 1
@@ -381,6 +386,11 @@ def replay(path: str) -> int:
         from .C20 import several_event_loops
         r = several_event_loops("C13")
         print("violation:" if r else "property holds under several event loops", r["what"] if r else "")
+        return 1 if r else 0
+    if rc.get("cache_variants"):
+        from .C20 import cache_variants
+        r = cache_variants()
+        print("violation:" if r else "property holds for cache wrappers after calls without a result", r["what"] if r else "")
         return 1 if r else 0
     if rc.get("repeated_calls"):
         from .C08 import repeated_calls
